@@ -248,7 +248,32 @@ def globalstate(prog, an):
                 out.append((f, d, f"'@{txt}' memoises {f.short}: the result is replayed even when the files / "
                                   f"objects behind the same arguments have changed"))
     # package objects with per-call state kept at class / module level
-    stateful = {c for c in prog.classes if any(fi.origin == 'init' for fi in prog.classes[c].fields.values())}
+    def _mutates_itself(cname):
+        # some method other than __init__ stores into a field of self (directly or through a container method):
+        # only then does an instance carry state from one call to the next
+        c_ = prog.classes[cname]
+        for mn, m_ in c_.methods.items():
+            if mn == '__init__' or not m_.params:
+                continue
+            sn = m_.params[0]
+            for x in ast.walk(m_.node):
+                if isinstance(x, ast.Attribute) and isinstance(x.ctx, (ast.Store, ast.Del)) \
+                        and isinstance(x.value, ast.Name) and x.value.id == sn:
+                    return True
+                if isinstance(x, ast.Call) and isinstance(x.func, ast.Attribute) and isinstance(x.func.value, ast.Attribute) \
+                        and isinstance(x.func.value.value, ast.Name) and x.func.value.value.id == sn \
+                        and x.func.attr in ('append', 'extend', 'add', 'update', 'pop', 'remove', 'clear', 'insert', 'setdefault'):
+                    return True
+                if isinstance(x, ast.Subscript) and isinstance(x.ctx, (ast.Store, ast.Del)) \
+                        and isinstance(x.value, ast.Attribute) and isinstance(x.value.value, ast.Name) \
+                        and x.value.value.id == sn:
+                    return True
+                if isinstance(x, ast.Call) and isinstance(x.func, ast.Name) and x.func.id == 'setattr' and x.args \
+                        and isinstance(x.args[0], ast.Name) and x.args[0].id == sn:
+                    return True
+        return False
+    stateful = {c for c in prog.classes if any(fi.origin == 'init' for fi in prog.classes[c].fields.values())
+                and _mutates_itself(c)}
     for m in prog.handwritten_modules():
         bodies = [(None, m.tree.body)] + [(c, c.node.body) for c in m.classes.values()]
         for owner, body in bodies:
@@ -351,6 +376,26 @@ def misc_bugclasses(prog, cfg_of_):
         cfg = cfg_of_(f)
         for d in f.node.decorator_list:
             if 'cached_property' in stmt_text(d):
+                # frozen at first read: a defect only if something it is computed from can change afterwards - a field
+                # of self that is stored to outside __init__ (anywhere in the package), or another property of self
+                sn = f.params[0] if f.params else 'self'
+                reads = {x.attr for x in ast.walk(f.node) if isinstance(x, ast.Attribute) and isinstance(x.ctx, ast.Load)
+                         and isinstance(x.value, ast.Name) and x.value.id == sn}
+                changing = set()
+                for g in prog.all_funcs():
+                    if g.module.generated or g.name in ('__init__', '__post_init__'):
+                        continue            # construction-time stores (of any class: matching is by field name)
+                    for x in ast.walk(g.node):
+                        if isinstance(x, ast.Attribute) and isinstance(x.ctx, (ast.Store, ast.Del)) and x.attr in reads:
+                            changing.add(x.attr)
+                        if isinstance(x, ast.Call) and isinstance(x.func, ast.Name) and x.func.id == 'setattr':
+                            changing.add('<setattr>')
+                if f.cls is not None and f.cls.is_dataclass:
+                    changing |= reads & {fi.name for fi in f.cls.fields.values()} & \
+                        {x.attr for g in prog.all_funcs() for x in ast.walk(g.node)
+                         if isinstance(x, ast.Attribute) and isinstance(x.ctx, ast.Store)}
+                if not (changing - {'<setattr>'}):
+                    continue
                 out.append((f, d, 'CACHEDPROP', f"'@{stmt_text(d)}' freezes {f.short} at its first read: the fields it is "
                             f"computed from (e.g. the id, assigned by add_node afterwards) change later, the cached value "
                             f"does not"))
